@@ -11,6 +11,7 @@ import (
 	"net"
 	"fmt"
 	"os"
+	"runtime/debug"
 	"strings"
 	"sync"
 	"testing"
@@ -295,6 +296,44 @@ func vC09Scenario(name string, seed uint64) string {
 		}
 		rs.Close()
 		return ""
+	case "peer-closed-first":
+		// the peer ends the session; the client's transport must give its socket back when it ends,
+		// and nothing of it may be left after Close (no collection cycle is forced here)
+		debug.SetGCPercent(-1)
+		skey, ckey := vGenKey(r), vGenKey(r)
+		rs := vStartRawServer(skey, ckey.Pub)
+		base := vSocketFDs() // the listener
+		cc, err := vDialLib(context.Background(), rs.Addr, ckey, skey.Pub, WithBlock())
+		if err != nil {
+			return "setup"
+		}
+		conn := <-rs.Conns
+		vTimerReset(0) // no further connection attempt succeeds or is retried
+		rs.srv.Close()
+		base-- // the listener is gone
+		if r.Intn(2) == 0 {
+			conn.WriteControl(websocket.CloseMessage, websocket.FormatCloseMessage(websocket.CloseNormalClosure, ""), time.Now().Add(time.Second))
+		}
+		conn.Close()
+		vWaitUntil(3*time.Second, func() bool { return cc.GetState() == connectivity.TransientFailure })
+		time.Sleep(50 * time.Millisecond)
+		before := vSocketFDs() - base
+		start := time.Now()
+		if !vClose(cc, 6*time.Second) {
+			return "close-hangs/" + strings.Join(vParked(), ",")
+		}
+		took := time.Since(start)
+		time.Sleep(50 * time.Millisecond)
+		if took > bound {
+			return fmt.Sprintf("close-exceeds-bound/%v", took)
+		}
+		if left := vClientLeft(); len(left) > 0 {
+			return "goroutines-left-after-close/" + strings.Join(left, ",")
+		}
+		if n := vSocketFDs() - base; n > 0 {
+			return fmt.Sprintf("socket-left-after-close/%d (before Close: %d)", n, before)
+		}
+		return ""
 	case "concurrent-close":
 		w, err := vC09Setup(r)
 		if err != nil || !w.ready() {
@@ -326,7 +365,7 @@ func vC09Scenario(name string, seed uint64) string {
 	return "unknown-scenario"
 }
 
-var vC09Names = []string{"idle-longer-than-write-timeout", "calls-in-flight", "inbound-requests-with-slow-handlers", "reconnect-in-progress", "inbound-burst", "concurrent-close", "close-right-after-dial", "write-fails-with-message-in-hand"}
+var vC09Names = []string{"idle-longer-than-write-timeout", "calls-in-flight", "inbound-requests-with-slow-handlers", "reconnect-in-progress", "inbound-burst", "concurrent-close", "close-right-after-dial", "write-fails-with-message-in-hand", "peer-closed-first"}
 
 func TestVerifC09Child(t *testing.T) {
 	spec := vChildSpec()
